@@ -72,7 +72,7 @@ func bareClient(name string, e *Env, dev Key, id uint32, energy *string, ct *str
 
 // fakeTCP serves exactly the given bytes to every connection.
 func fakeTCP(reply []byte) (uint16, func()) {
-	l, err := net.Listen("tcp", "127.0.0.1:0")
+	l, err := net.Listen("tcp", myIP+":0")
 	if err != nil {
 		panic(err)
 	}
@@ -95,7 +95,7 @@ func fakeTCP(reply []byte) (uint16, func()) {
 }
 
 func closedPort() uint16 {
-	l, _ := net.Listen("tcp", "127.0.0.1:0")
+	l, _ := net.Listen("tcp", myIP+":0")
 	p := uint16(l.Addr().(*net.TCPAddr).Port)
 	l.Close()
 	return p
@@ -158,7 +158,7 @@ var witnesses = []witness{
 	{"F4", []string{"C12"}, "authorize new equipment while an authorized peer is unreachable", func() (bool, string) {
 		e := mustEnv("f4")
 		peer := detKey(7, 50)
-		as := server.AuthorizedServer{PublicKey: peer.Pub, Location: "127.0.0.1", HttpPort: closedPort(), TcpPort: 1, UdpPort: 1}
+		as := server.AuthorizedServer{PublicKey: peer.Pub, Location: myIP, HttpPort: closedPort(), TcpPort: 1, UdpPort: 1}
 		as.GCAAuthorization = glow.Sign(as.SigningBytes(), e.GCA.Priv)
 		st, _, err := e.PostJSON("/api/v1/authorized-servers", as)
 		if err != nil || st != 200 {
@@ -219,7 +219,7 @@ var witnesses = []witness{
 		defer stop()
 		dev := detKey(7, 1)
 		srv := detKey(7, 60)
-		servers := map[glow.PublicKey]client.GCAServer{srv.Pub: {Location: "127.0.0.1", TcpPort: port, UdpPort: 9, HttpPort: 9}}
+		servers := map[glow.PublicKey]client.GCAServer{srv.Pub: {Location: myIP, TcpPort: port, UdpPort: 9, HttpPort: 9}}
 		c, _, err := bareClient("f8", nil, dev, 1, nil, nil, 0, servers)
 		if err != nil {
 			return false, err.Error()
@@ -234,14 +234,14 @@ var witnesses = []witness{
 		r2 = append(append(r2, body...), sig[:]...)
 		port2, stop2 := fakeTCP(r2)
 		defer stop2()
-		g2 := client.GCAServer{Location: "127.0.0.1", TcpPort: port2}
+		g2 := client.GCAServer{Location: myIP, TcpPort: port2}
 		_, _, _, _, _, err2 := c.VerifServerSync(g2, srv.Pub, detKey(7, 1001).Pub)
 		return err != nil && err2 != nil, fmt.Sprintf("err=%v err2=%v", err, err2)
 	}},
 	{"F9", []string{"C11"}, "sync round with every server failed: mutex must be free afterwards", func() (bool, string) {
 		dev := detKey(7, 1)
 		srv := detKey(7, 60)
-		servers := map[glow.PublicKey]client.GCAServer{srv.Pub: {Location: "127.0.0.1", TcpPort: closedPort(), UdpPort: 9, HttpPort: 9}}
+		servers := map[glow.PublicKey]client.GCAServer{srv.Pub: {Location: myIP, TcpPort: closedPort(), UdpPort: 9, HttpPort: 9}}
 		c, _, err := bareClient("f9", nil, dev, 1, nil, nil, 0, servers)
 		if err != nil {
 			return false, err.Error()
@@ -300,7 +300,7 @@ var witnesses = []witness{
 	}},
 	{"F14", []string{"C16"}, "energy file with a single-column row", func() (bool, string) {
 		energy := "9999999999\n"
-		c, _, err := bareClient("f14", nil, detKey(7, 1), 1, &energy, nil, 0, map[glow.PublicKey]client.GCAServer{detKey(7, 60).Pub: {Location: "127.0.0.1"}})
+		c, _, err := bareClient("f14", nil, detKey(7, 1), 1, &energy, nil, 0, map[glow.PublicKey]client.GCAServer{detKey(7, 60).Pub: {Location: myIP}})
 		if err != nil {
 			return false, err.Error()
 		}
@@ -340,7 +340,7 @@ var witnesses = []witness{
 		return err == nil && st != 200 && n == 0, fmt.Sprintf("status=%d servers=%d", st, n)
 	}},
 	{"F20", []string{"C09"}, "history store: a save 2^30 slots beyond the origin must not land in an early slot", func() (bool, string) {
-		c, _, err := bareClient("f20", nil, detKey(7, 1), 1, nil, nil, 100, map[glow.PublicKey]client.GCAServer{detKey(7, 60).Pub: {Location: "127.0.0.1"}})
+		c, _, err := bareClient("f20", nil, detKey(7, 1), 1, nil, nil, 100, map[glow.PublicKey]client.GCAServer{detKey(7, 60).Pub: {Location: myIP}})
 		if err != nil {
 			return false, err.Error()
 		}
@@ -391,7 +391,7 @@ func init() {
 			dev := detKey(7, 1)
 			sink := newUDPSink()
 			defer sink.c.Close()
-			servers := map[glow.PublicKey]client.GCAServer{detKey(7, 60).Pub: {Location: "127.0.0.1", HttpPort: 1, TcpPort: closedPort(), UdpPort: sink.port()}}
+			servers := map[glow.PublicKey]client.GCAServer{detKey(7, 60).Pub: {Location: myIP, HttpPort: 1, TcpPort: closedPort(), UdpPort: sink.port()}}
 			dir := freshDir("f17")
 			defer os.RemoveAll(dir)
 			hdr := "timestamp,energy (mWh)\n"
